@@ -15,8 +15,8 @@
   performs (remove obsolete deepest first, remove changed, mkdir -p + symlink), run on that map
   with the error behaviour of unlink / rmdir / makedirs / symlink.
 
-  The model is the code as it stands after the fix commits for the six defects this check found
-  (proposed/F-16b-view.md, F-16c-view.md, F-17a.md … F-17d.md describe them):
+  The model is the code as it stands after the fix commits for the seven defects this check found
+  (proposed/F-16b-view.md, F-16c-view.md, F-17a.md … F-17d.md describe the first six):
     F-16b  auto paths are checked for uniqueness            (`pathStrings`, branch `.auto`)
     F-16c  leaf/node check independent of the order          (`structureValid` is two-pass)
     F-17a  existing paths are normalised ("./job" = "job")   (`findAllLinks` yields view paths)
@@ -24,6 +24,9 @@
     F-17c  a path that changes kind (link <-> directory) is replaced
            (`stale` links are removed, changed entries are removed with unlink-or-rmdir)
     F-17d  a link path that is absolute or contains ".." is refused (`escapes`, RuntimeError)
+    F-17e  link paths are normalised (`normpath`) before the checks, and a normalised link path
+           generated for two jobs is refused ("d/" and "d/." name the same place; "./job" was
+           not recognised on the next run)            (`linkKey`, `keysUnique`)
 -/
 import Signac.Json
 import Signac.PyVal
@@ -82,11 +85,29 @@ def normComps : List String → List String → List String
       | [] => normComps [c] cs
       | a :: acc' => if a = ".." then normComps (c :: acc) cs else normComps acc' cs
 
-/-- `posixpath.normpath` of a relative path (absolute paths are outside the model: the driver
-    refuses them) -/
+/-- component loop of `posixpath.normpath` for an absolute path: ".." at the root is dropped
+    (so the stack never holds "..") -/
+def normCompsAbs : List String → List String → List String
+  | acc, [] => acc.reverse
+  | acc, c :: cs =>
+    if c = "" || c = "." then normCompsAbs acc cs
+    else if c != ".." then normCompsAbs (c :: acc) cs
+    else normCompsAbs acc.tail cs
+
+/-- the leading separators `normpath` keeps: exactly two stay two (POSIX), any other number
+    becomes one -/
+def leadSlashes : List Char → String
+  | '/' :: '/' :: '/' :: _ => "/"
+  | '/' :: '/' :: _ => "//"
+  | _ => "/"
+
+/-- `posixpath.normpath` -/
 def normpath (s : String) : String :=
-  let r := joinWith "/" (normComps [] (splitSep s))
-  if r.isEmpty then "." else r
+  if startsWithSep s then
+    leadSlashes s.toList ++ joinWith "/" (normCompsAbs [] (splitSep s))
+  else
+    let r := joinWith "/" (normComps [] (splitSep s))
+    if r.isEmpty then "." else r
 
 /-- the location in the view that a raw '/'-joined path names: "" and "." components vanish -/
 def fsPath (p : Path) : Path := p.filter (fun c => !(c = "" || c = "."))
@@ -446,13 +467,21 @@ def pathStrings (jobs : List Job) (spec : PathSpec) : Option (Except Reject (Lis
      | some none => some (.error .schemaEval)
      | some (some ps) => if pathsUnique ps then some (.ok ps) else some (.error .runtime))
 
-/-- `os.path.join(path_function(job), "job")`, split at the separator -/
-def linkKey (p : String) : Path := splitSep (osJoin2 p leaf)
+/-- `os.path.normpath(os.path.join(path_function(job), "job"))`, split at the separator
+    (normalised since the F-17e fix) -/
+def linkKey (p : String) : Path := splitSep (normpath (osJoin2 p leaf))
+
+/-- `if paths in links: raise RuntimeError`: no normalised link path is generated twice -/
+def keysUnique : List Path → Bool
+  | [] => true
+  | k :: ks => !ks.contains k && keysUnique ks
 
 /-- absolute, or with a ".." component (refused since the F-17d fix) -/
 def escapes (k : Path) : Bool := k.contains ".." || k.head? == some ""
 
-/-- the `links` dictionary of `create_linked_view`:  raw '/'-split link path ↦ job id -/
+/-- the `links` dictionary of `create_linked_view`:  normalised '/'-split link path ↦ job id;
+    a link path generated for two jobs, an absolute one or one with "..", and a path that is
+    both a link and a directory are refused (RuntimeError) -/
 def createLinks (jobs : List Job) (spec : PathSpec) : LinkRes :=
   if !jobs.all (fun j => objModelled j.sp) || !pathsUnique (jobs.map (·.id)) then .unmodelled
   else if !sepFree jobs then .reject .runtime
@@ -461,7 +490,8 @@ def createLinks (jobs : List Job) (spec : PathSpec) : LinkRes :=
     | none => .unmodelled
     | some (.error e) => .reject e
     | some (.ok ps) =>
-      if (ps.map linkKey).any escapes then .reject .runtime
+      if !keysUnique (ps.map linkKey) then .reject .runtime
+      else if (ps.map linkKey).any escapes then .reject .runtime
       else if !structureValid (ps.map linkKey) then .reject .runtime
       else .ok ((ps.map linkKey).zip (jobs.map (·.id)))
 
